@@ -118,6 +118,10 @@ def readsBelow (m : Model K) (N : Nat) : Bool :=
   decide (0 < N) && m.cfg.modifiers.all fun (n, _) =>
     decide ((sliceOf m.slices n).1 < N) && decide ((sliceOf m.slices n).2 ≤ N)
 
+/-- every parameter index the constraint terms read lies below `N` (the slices of all constrained parameter sets end at or before `N`) -/
+def constraintReadsBelow (m : Model K) (N : Nat) : Bool :=
+  decide (0 < N) && (m.ps.filter (·.constrained)).all fun p => decide ((sliceOf m.slices p.name).2 ≤ N)
+
 /-- per-sample clipping does not lift the zero rows of absent samples -/
 def clipSampleNonPos (m : Model K) : Bool :=
   match m.settings.clipSample with
